@@ -90,3 +90,19 @@ class Table:
 
     def absent_is_missing(self, key, value):
         self.low[key] = min(self.low.get(key, value), value)
+
+
+def make_rung(metric, mode, level):
+    return (metric, mode, level)
+
+
+def swapped_keyword(metric, mode):
+    return make_rung(metric=metric, mode=metric, level=1)
+
+
+def swapped_positional(metric, mode):
+    return make_rung(mode, metric, 1)
+
+
+def straight(metric, mode):
+    return make_rung(metric, mode, level=1)
